@@ -170,8 +170,31 @@ impl Family for ConcFamily {
     sc
   }
 
-  fn run(&self, sc: &ChanSc, record_trace: bool) -> Evaluated {
-    let run = execute_scenario(sc, record_trace);
+  fn needs_fresh_thread(&self) -> bool {
+    // the point-to-point channels iterate no hash maps
+    false
+  }
+
+  fn max_steps(&self) -> usize {
+    60_000
+  }
+
+  fn begin(&self, sc: &ChanSc, record_trace: bool) -> crate::core::run::RunCfg {
+    begin_scenario(sc, record_trace)
+  }
+
+  fn body(&self) -> std::sync::Arc<dyn Fn() + Send + Sync> {
+    std::sync::Arc::new(scenario_main)
+  }
+
+  fn finish(&self, sc: &ChanSc, out: crate::core::run::RunOut) -> Evaluated {
+    let run = finish_scenario(out);
+    if std::env::var("VERIF_DUMP").is_ok() {
+      for e in &run.events {
+        println!("  ev actor={} handle={} inv={} ret={} {:?}", e.actor, e.handle, e.inv, e.ret, e.k);
+      }
+      println!("  failure={:?}", run.out.failure);
+    }
     let violations = oracle::evaluate(sc, &run);
     let states = oracle::states(sc, &run);
     let delivered = run.events.iter().any(|e| matches!(&e.k, EvK::Recv { out, .. } if !out.got.is_empty()));
